@@ -308,7 +308,7 @@ def run_check(prop, tier, seed, replay=None, workers=None):
     excluded = {}
     discarded = 0
     extra = {}
-    corpus = list(mod.fixed_cases(tier)) if hasattr(mod, "fixed_cases") else []
+    corpus = list(mod.fixed_cases(tier)) if hasattr(mod, "fixed_cases") and not os.environ.get("VT_NO_CORPUS") else []
     for case in corpus:
         try:
             res = evaluate(mod, case, tier)
